@@ -612,66 +612,76 @@ def check(ctx, rep):
     rep.assume("served content (gophermaps, link files, mailboxes, archives) is well formed: partial operations on file content are not tracked")
 
     # ------------------------------------------------------------------ R03a
-    gexc_fnf = "FileNotFound"
+    SELECT = ("gethandler", "getentry", "prepare")
+    NOINLINE = ("write_status", "writedir", "gethandler", "renderobjinfo", "log", "adjust_mimetype", "adjustmimetype", "filenotfound",
+                "headerslurp", "handlerwrite", "renderdirstart", "renderdirend", "renderabstract", "canhandlerequest", "getrenderstr")
+    done_handles = set()
     for P in ctx.protocol_classes():
         h = prog.resolve_method(P, "handle")
-        if h is None or h.cls is not P:
+        if h is None or (h, P) in done_handles:
             continue
+        if h.cls is not P and any((h, Q) in done_handles for Q in prog.mro(P)[1:]) and not any(
+                prog.resolve_method(P, nm) is not prog.resolve_method(h.cls, nm) for nm in ("filenotfound", "write_status", "handlerwrite", "gethandler")):
+            continue  # inherited unchanged, with the same reply writers: decided for the base class
+        done_handles.add((h, P))
         rep.analysed(h.qualname)
         problems = []
-        calls = []
-        for call, t in eff.calls_of(h, P):
-            if isinstance(call.func, ast.Attribute) and call.func.attr in ("gethandler", "getentry", "prepare") \
-                    and (t.kind == "repo"):
-                calls.append(call)
-        if not calls:
-            problems.append("handle() never selects a handler")
-        for call in calls:
-            need = {gexc_fnf: False, "OSError": False}
-            for tr in enclosing_tries(h.node, call):
-                for hd in tr.handlers:
-                    for exc in need:
-                        if catches(hd, exc) and not need[exc]:
-                            # the handler must answer with the protocol's error writer
-                            writes = [c for c in ast.walk(hd) if isinstance(c, ast.Call) and isinstance(c.func, ast.Attribute)
-                                      and c.func.attr in ("filenotfound", "write_status") and dotted(c.func.value) == "self"]
-                            if writes:
-                                need[exc] = True
-            for exc, ok in need.items():
-                if not ok:
-                    problems.append(f"`{norm(call)}` can raise {exc} with no handler that sends the protocol's error reply")
-        # status-line protocols
-        status_calls = [c for c, t in eff.calls_of(h, P) if isinstance(c.func, ast.Attribute) and c.func.attr == "write_status"]
-        if status_calls:
-            def rp(call, target):
-                if isinstance(call.func, ast.Attribute) and call.func.attr in ("gethandler", "getentry", "prepare") and target.kind == "repo":
-                    return ["FileNotFound", "OSError"]
-                return []
-            # helpers of the protocol class that carry part of the reply (status line, body) are walked with handle()
-            w = Walker(prog, ctx.resolver, raise_points=rp,
-                       inline=lambda fn, t, d: d < 3 and t.bound_cls is not None and fn.module is h.module
-                       and fn.name not in ("write_status", "writedir", "gethandler", "renderobjinfo", "log", "adjust_mimetype", "adjustmimetype")
-                       and any(isinstance(x, ast.Attribute) and x.attr in ("write_status", "writedir", "write") for x in ast.walk(fn.node)))
-            for p in w.run(h, P):
+
+        def rp(call, target):
+            if isinstance(call.func, ast.Attribute) and call.func.attr in SELECT and target.kind == "repo":
+                return ["FileNotFound", "OSError"]
+            return []
+
+        # handle() with the helpers of the protocol class it calls (one reply, wherever its pieces live)
+        w = Walker(prog, ctx.resolver, raise_points=rp, merge_loops=True,
+                   inline=lambda fn, t, d: d < 3 and t.bound_cls is not None and fn.name not in NOINLINE and fn.cls is not None
+                   and fn.cls.module.name.startswith("pygopherd.protocols"))
+        try:
+            paths = w.run(h, P)
+        except Exception:
+            paths = []
+            problems.append("could not enumerate the paths through handle()")
+        selected = False
+        status_protocol = any(isinstance(ev.node.func, ast.Attribute) and ev.node.func.attr == "write_status" for p_ in paths for ev in p_.calls())
+        for p in paths:
+            raised_at = [i for i, e in enumerate(p.events) if e.kind == "raise" and e.extra == "implicit" and isinstance(e.node, ast.Call)
+                         and isinstance(e.node.func, ast.Attribute) and e.node.func.attr in SELECT]
+            if any(e.kind == "call" and isinstance(e.node.func, ast.Attribute) and e.node.func.attr in SELECT for e in p.events):
+                selected = True
+            if raised_at:
+                i0 = raised_at[0]
+                exc = p.events[i0].target
+                what = f"`{norm(p.events[i0].node)}` can raise {exc}"
                 if p.kind == "raise":
+                    problems.append(f"{what} with no handler that sends the protocol's error reply")
                     continue
+                replied = any(e.kind == "call" and isinstance(e.node.func, ast.Attribute) and e.node.func.attr in ("filenotfound", "write_status")
+                              and dotted(e.node.func.value) == "self" for e in p.events[i0:])
+                if not replied:
+                    problems.append(f"{what} with no handler that sends the protocol's error reply")
+            if status_protocol and p.kind != "raise":
                 sts = []
                 body_after_error = False
                 err = False
                 for ev in p.calls():
                     if isinstance(ev.node.func, ast.Attribute) and ev.node.func.attr == "write_status":
-                        code = ev.node.args[0].value if ev.node.args and isinstance(ev.node.args[0], ast.Constant) else None
+                        a0 = (ev.extra or {}).get("args") or []
+                        code = a0[0].value if a0 and a0[0].kind == "const" else (
+                            ev.node.args[0].value if ev.node.args and isinstance(ev.node.args[0], ast.Constant) else None)
                         sts.append(code)
-                        if code is not None and (code in (4, 5) or code >= 40):
+                        if isinstance(code, int) and (code in (4, 5) or code >= 40):
                             err = True
-                    elif err and isinstance(ev.node.func, ast.Attribute) and ev.node.func.attr in ("write", "writedir"):
+                    elif err and isinstance(ev.node.func, ast.Attribute) and ev.node.func.attr in ("write", "writedir", "handlerwrite"):
                         body_after_error = True
                 if len(sts) != 1:
                     problems.append(f"a path through handle() writes {len(sts)} status lines {sts} (must be exactly one)")
                 if body_after_error:
                     problems.append("a body is written after an error status")
-        rep.add("R03a", f"{h.qualname} converts errors into replies", not problems, ctx.where(h),
-                "; ".join(sorted(set(problems))[:4]), key=f"R03a|{h.qualname}|" + ";".join(sorted(set(problems))))
+        if not selected and not problems:
+            problems.append("handle() never selects a handler")
+        owner = f"{P.name}: " if h.cls is not P else ""
+        rep.add("R03a", f"{owner}{h.qualname} converts errors into replies", not problems, ctx.where(h),
+                "; ".join(sorted(set(problems))[:4]), key=f"R03a|{owner}{h.qualname}|" + ";".join(sorted(set(problems))))
 
     # ------------------------------------------------------------------ R03b
     partial_op_obligations(ctx, rep, "R03b", request_path_functions(ctx), kinds=("P1", "P2", "P3", "P4", "P5", "P6"))
@@ -743,11 +753,20 @@ def check(ctx, rep):
     pb_ = ctx.cls("protocols.base.BaseGopherProtocol")
     for P in ctx.protocol_classes():
         ws = prog.resolve_method(P, "write_status")
-        if ws is None or (ws.cls is not P and ws.cls is not None and pb_ is not None and prog.is_subclass(ws.cls, pb_)):
-            continue  # none, or inherited from another protocol class (decided there)
+        if ws is None or ws.cls is P and any(prog.resolve_method(Q, "write_status") is ws for Q in prog.subclasses(P) if Q is not P) \
+                and prog.resolve_method(P, "canhandlerequest") is None:
+            continue
+        if ws is None or (ws.cls is not P and ws.cls is not None and pb_ is not None and prog.is_subclass(ws.cls, pb_)
+                          and prog.resolve_method(ws.cls, "canhandlerequest") is not None and "canhandlerequest" in ws.cls.methods):
+            continue  # none, or inherited from another concrete protocol class (decided there)
         meta = ws.params[2] if len(ws.params) > 2 else "meta"
         writes = [n for n in ast.walk(ws.node) if isinstance(n, ast.Call) and isinstance(n.func, ast.Attribute) and n.func.attr == "write"]
         problems = []
+        # decided by evaluating write_status() on a text with every kind of line break, when the evaluator can follow it
+        verdict = _status_line_evaluation(ctx, P, ws)
+        if verdict is not None:
+            rep.add("R03g", f"{P.qualname}.write_status: one-line status", not verdict, ctx.where(ws), "; ".join(verdict), key=f"R03g|{P.qualname}.write_status")
+            continue
         uses_meta = any(isinstance(x, ast.Name) and x.id == meta for w_ in writes for x in ast.walk(w_))
         if uses_meta:
             collapsed = False
@@ -954,6 +973,54 @@ def pregate_flow_obligations(ctx, rep, rule, eff):
                     "): a selector that climbs out of the root is answered differently depending on what exists there" if problems else "",
                     key=f"{rule}|{m.qualname}|{name}")
 
+
+
+def _status_line_evaluation(ctx, P, ws):
+    """write_status(51, <text with CR, LF and CRLF inside>) evaluated: what is written has to be a single line.
+    -> list of problems, or None when the evaluation could not follow the code."""
+    from ..paths import Const, Walker
+
+    prog = ctx.prog
+    if len(ws.params) < 3:
+        return None
+    holder = {}
+
+    def cv(call, target, st):
+        f = call.func
+        if isinstance(f, ast.Attribute) and f.attr == "write" and "wfile" in norm(f.value):
+            a = holder["w"].cur_args
+            prev = st.facts.get("__written")
+            prev = prev.value if prev is not None and prev.kind == "const" else ()
+            st.facts["__written"] = Const(prev + ((a[0].value if a and a[0].kind == "const" else None),))
+            return Const(None)
+        return None
+
+    w = Walker(prog, ctx.resolver, call_value=cv, exact_loops=True, unroll=6,
+               inline=lambda fn, t, d: d < 3 and (t.bound_cls is not None or (fn.cls is None and fn.module.name.startswith("pygopherd"))))
+    holder["w"] = w
+    try:
+        paths = w.run(ws, P, env={ws.params[1]: Const(51), ws.params[2]: Const("not found: /a\r\nb\nc\rd")})
+    except Exception:
+        return None
+    outs = set()
+    for p in paths:
+        if p.kind == "raise":
+            return None
+        wv = p.state.facts.get("__written")
+        if wv is None or wv.kind != "const" or not wv.value or any(not isinstance(x, (bytes, str)) for x in wv.value):
+            return None
+        outs.add(b"".join(x if isinstance(x, bytes) else x.encode() for x in wv.value))
+    if not outs:
+        return None
+    problems = []
+    for text in outs:
+        body = text[:-2] if text.endswith(b"\r\n") else (text[:-1] if text.endswith(b"\n") else None)
+        if body is None:
+            problems.append(f"the status line {text!r} does not end with a line break")
+        elif b"\r" in body or b"\n" in body:
+            problems.append(f"a status text containing line breaks is written as {text!r}: error texts echo the percent-decoded selector, so a request "
+                            "such as /a%0Ab breaks the one-line status into two")
+    return problems
 
 
 def _collapses_lines(expr, name) -> bool:
